@@ -22,13 +22,14 @@ import (
 )
 
 type c01RPC struct {
-	Kind   string
-	Reqs   []MsgSpec
-	Resps  []MsgSpec
-	Duplex bool  `json:",omitempty"` // bidi on inproc: both directions flow concurrently
-	CPace  []int `json:",omitempty"` // Gosched counts before client sends
-	HPace  []int `json:",omitempty"` // Gosched counts before handler sends
-	RPace  []int `json:",omitempty"` // Gosched counts before client receives
+	Kind     string
+	Reqs     []MsgSpec
+	Resps    []MsgSpec
+	Duplex   bool  `json:",omitempty"` // bidi on inproc: both directions flow concurrently
+	Scribble bool  `json:",omitempty"` // senders overwrite each message right after the send has returned (it is theirs again)
+	CPace    []int `json:",omitempty"` // Gosched counts before client sends
+	HPace    []int `json:",omitempty"` // Gosched counts before handler sends
+	RPace    []int `json:",omitempty"` // Gosched counts before client receives
 }
 
 type c01Case struct {
@@ -144,6 +145,10 @@ func (r *c01run) service() *Service {
 					r.fault("rpc %d (%s): handler SendMsg #%d: %v", i, kind, j, err)
 					return err
 				}
+				if sp.Scribble {
+					flipBytes(m)
+					m.Count, m.Code = -m.Count-1, 424242
+				}
 			}
 			return nil
 		}
@@ -220,6 +225,10 @@ func (r *c01run) client(conn grpc.ClientConnInterface, i int) {
 			if err := cs.SendMsg(m); err != nil {
 				r.fault("rpc %d (%s): client SendMsg #%d: %v", i, sp.Kind, j, err)
 				break
+			}
+			if sp.Scribble {
+				flipBytes(m)
+				m.Count, m.Code = -m.Count-1, 424242
 			}
 		}
 		if err := cs.CloseSend(); err != nil {
@@ -390,6 +399,7 @@ func genC01RPC(t *rapid.T, carrier string, maxMsg int) c01RPC {
 	if rp.Kind == kBidi && carrier == cInproc {
 		rp.Duplex = rapid.Bool().Draw(t, "duplex")
 	}
+	rp.Scribble = rp.Kind != kUnary && rapid.Bool().Draw(t, "scribble")
 	rp.CPace = genPace(t, "cpace", nreq)
 	rp.HPace = genPace(t, "hpace", nresp)
 	rp.RPace = genPace(t, "rpace", nresp)
